@@ -47,8 +47,9 @@ def rule_a(ctx, ix, hub):
     msg = f.params[1]
     cfg = CFG(f.node)
     dom = cfg.dominators()
-    I = [n for n in cfg.nodes() if cfg.kind[n] == 'if' and _mentions_field(cfg.stmt[n].test, s, '_ignore')]
-    P = [n for n in cfg.nodes() if cfg.kind[n] == 'if' and _mentions_field(cfg.stmt[n].test, s, '_paused')]
+    from ..util import expand_locals as _xl
+    I = [n for n in cfg.nodes() if cfg.kind[n] == 'if' and _mentions_field(_xl(f.node, cfg.stmt[n].test), s, '_ignore')]
+    P = [n for n in cfg.nodes() if cfg.kind[n] == 'if' and _mentions_field(_xl(f.node, cfg.stmt[n].test), s, '_paused')]
     Q = [n for n in cfg.nodes() if cfg.kind[n] == 'stmt' and any(
         call_name(c) in ('append', 'put', 'extend') and _mentions_field(c.func, s, '_queue') for c in calls_in(cfg.stmt[n]))]
     D = [n for n in cfg.nodes() if cfg.kind[n] == 'for' and any(call_name(c) == '_find_handlers' for c in calls_in(cfg.stmt[n].iter))]
@@ -140,7 +141,7 @@ def rule_b(ctx, ix, hub):
                detail='Hub.delay_callbacks restores the pause state with `%s` outside a finally block: an exception inside '
                       'the block leaves the hub paused for ever' % norm(st), where=where(f, st))
     # (3)+(4) the flush
-    loops = [n for n in walk_no_nested(node) if isinstance(n, (ast.For, ast.While)) and n.lineno > y.lineno
+    loops = [n for n in walk_no_nested(node) if isinstance(n, (ast.For, ast.While)) and not any(x is y for x in ast.walk(n))
              and any(call_name(c) == 'broadcast' for c in calls_in(n))]
     if len(loops) != 1:
         raise AnalysisError('Hub.delay_callbacks: flush loop not recognised')
@@ -149,15 +150,17 @@ def rule_b(ctx, ix, hub):
     ctx.ob(R, f.construct, 'the queue is flushed in the finally block (also when the block raised)', tr is not None,
            detail='Hub.delay_callbacks flushes the queue outside the finally block: messages queued before an exception '
                   'are never delivered', where=where(f, lp))
-    guards = [g for g, br in guard_chain(pm, lp, node) if isinstance(g, ast.If) and br == 'body']
-    outer = any(_mentions_field(g.test, s, '_paused') and
-                (unparse(g.test).replace(' ', '') in ('%s._paused==0' % s, 'not%s._paused' % s, '%s._paused<=0' % s, '%s._paused<1' % s))
-                for g in guards)
+    from .. import cond
+    guards = [g for g, br in guard_chain(pm, lp, node) if isinstance(g, ast.If)]
+    pc = cond.path_condition(node, lp) or ('const', True)
+    depth_atoms = [k for k in cond.atoms(pc) if '%s._paused' % s in k or (saved and saved in k)]
+    got = cond.restrict(pc, lambda k: k in depth_atoms)
+    P_ = '%s._paused' % s
+    zero_forms = [cond.T('eq|0|%s' % P_), cond.Not(cond.T(P_)), cond.Not(cond.T('lt|0|%s' % P_)), cond.T('lt|%s|1' % P_)]
+    outer = any(cond.equivalent(got, z) for z in zero_forms)
     if restore_prev:
-        outer = any(_mentions_field(g.test, s, '_paused') or saved in unparse(g.test) for g in guards)
-    any_depth_test = any(_mentions_field(g.test, s, '_paused') for g in guards) or \
-        any(isinstance(n, ast.If) and _mentions_field(n.test, s, '_paused') and any(isinstance(x, ast.Return) for x in n.body)
-            and n.lineno < lp.lineno and n.lineno > y.lineno for n in ast.walk(node))
+        outer = bool(depth_atoms)
+    any_depth_test = bool(depth_atoms)
     ctx.idiom(R, f.construct, 'the flush runs only when the outermost block closes', accepted=outer, absent=not any_depth_test,
               detail_absent='Hub.delay_callbacks flushes the queue at the exit of every block, not only the outermost one (no test '
                             'of the pause depth guards the flush): messages are delivered while an outer delay block is still open',
@@ -217,8 +220,10 @@ def rule_c(ctx, ix, hub):
                   % ([norm(x) for x in inc], [norm(x) for x in dec]), where=f.where)
     # broadcast reads the same structure
     b = hub.resolve_func('broadcast')
-    tests = [n for n in walk_no_nested(b.node) if isinstance(n, ast.If) and '_ignore' in unparse(n.test)]
-    ok = any(('type(%s)' % b.params[1]) in unparse(t.test) and '> 0' in unparse(t.test) for t in tests)
+    from ..util import expand_locals
+    tests = [unparse(expand_locals(b.node, n.test)) for n in walk_no_nested(b.node) if isinstance(n, ast.If)]
+    tests = [t for t in tests if '_ignore' in t]
+    ok = any(('type(%s)' % b.params[1]) in t and '> 0' in t for t in tests)
     ctx.ob(R, b.construct, 'broadcast drops a message while the counter of its type is positive', ok,
            detail='Hub.broadcast does not test `_ignore[type(message)] > 0`', where=b.where)
     n = 0
@@ -248,15 +253,14 @@ def rule_d(ctx, ix, hub):
            detail='Hub._find_handlers iterates the live subscription table (%s): a handler that subscribes or '
                   'unsubscribes during delivery breaks the iteration' % unparse(lp.iter), where=where(f, lp))
     # candidates: subscribed classes that are superclasses of the message's type
-    comps = [n for n in ast.walk(lp) if isinstance(n, (ast.ListComp, ast.GeneratorExp, ast.SetComp))]
+    from ..util import iterations, expand_locals
+    targets = {unparse(tg) for it, tg, owner, kind in iterations(lp)}
     ok = False
-    for c in comps:
-        for g in c.generators:
-            for cond in g.ifs:
-                t = unparse(cond).replace(' ', '')
-                tv = unparse(g.target)
-                if t in ('issubclass(type(%s),%s)' % (msg, tv), 'isinstance(%s,%s)' % (msg, tv)):
-                    ok = True
+    for c in calls_in(lp):
+        if isinstance(c.func, ast.Name) and c.func.id in ('issubclass', 'isinstance') and len(c.args) == 2 and unparse(c.args[1]) in targets:
+            a0 = unparse(expand_locals(f.node, c.args[0])).replace(' ', '')
+            if (c.func.id == 'issubclass' and a0 == 'type(%s)' % msg) or (c.func.id == 'isinstance' and a0 == msg):
+                ok = True
     ctx.ob(R, f.construct, 'candidates are the subscribed classes the message is an instance of', ok,
            detail='Hub._find_handlers no longer selects subscriptions with issubclass(type(message), subscribed_class)',
            where=where(f, lp))
@@ -282,7 +286,7 @@ def rule_d(ctx, ix, hub):
     ctx.ob(R, f.construct, 'the most specific (longest MRO) matching subscription is chosen', ok, detail='Hub._find_handlers: ' + detail,
            where=where(f, lp))
     # filter before listing
-    apps = [c for c in calls_in(lp) if call_name(c) == 'append']
+    apps = [c for c in calls_in(lp) if call_name(c) == 'append' and c.args and isinstance(c.args[0], ast.Tuple)]
     if len(apps) != 1:
         raise AnalysisError('Hub._find_handlers: handler list append not recognised')
     pm = parent_map(f.node)
@@ -329,6 +333,9 @@ def rule_d(ctx, ix, hub):
                 if k.arg == 'reverse':
                     rev = isinstance(k.value, ast.Constant) and bool(k.value.value)
             sorts_seen += 1
+            if isinstance(key, ast.Call) and call_name(key) == 'itemgetter' and len(key.args) == 1 and isinstance(key.args[0], ast.Constant):
+                # operator.itemgetter(i) is lambda x: x[i]
+                key = ast.parse('lambda x: x[%d]' % key.args[0].value, mode='eval').body
             if key is None or not isinstance(key, ast.Lambda):
                 detail = 'the handlers are sorted without a recognisable priority key: %s' % unparse(c)[:80]
                 continue
